@@ -88,6 +88,8 @@ def shrink(pid, fam, bad, workdir):
         except Exception:
             break
         d = diff_cases(pid, fam, cands, impl, model)
+        if cur.get("predicate_failed"):
+            d = [x for x in d if x.get("predicate_failed")]
         if not d:
             break
         d.sort(key=lambda x: len(x["case"]))
@@ -237,15 +239,18 @@ def run_property(pid, tier, seed, replay=None):
                     print(f"KNOWN-FINDING: property={pid} {kf['text']}")
             if not unknown:
                 continue
-            unknown.sort(key=lambda v: len(v["case"]))
+            unknown.sort(key=lambda v: (0 if v.get("predicate_failed") else 1, len(v["case"])))
             best = shrink(pid, fam, unknown[0], workdir)
+            # a family whose cross_checks state the whole property on traces: a bare model/implementation
+            # difference shows the tie is broken, not that the property fails on this input
+            suffix = " no-failing-input-found" if getattr(fam, "PREDICATE_COMPLETE", False) and not best.get("predicate_failed") else ""
             rp = os.path.join(replay_dir, f"{pid}.{name}.json")
             json.dump({"property": pid, "tier": tier, "seed": seed, "family": name, "case": best["case"],
                        "profile": best["profile"], "fields": fam.FIELDS, "binding_fields": best["binding_fields"],
                        "impl": trunc(best["impl"], 400), "model": trunc(best["model"], 400), "predicate_failed": best.get("predicate_failed"),
                        "explain": fam.explain(best) if hasattr(fam, "explain") else None,
                        "failing_cases_in_run": len(unknown), "proof": proof}, open(rp, "w"), indent=1)
-            print(f"VIOLATION property={pid} replay={rp}")
+            print(f"VIOLATION property={pid} replay={rp}{suffix}")
             reported += 1
             rc = 1
     if not proof["ok"] and rc == 0:
